@@ -137,9 +137,11 @@ def virtual(patch_modules=()):
         old = None
     asyncio.set_event_loop(loop)
 
+    loop.wall_offset = 0.0          # the driver may step the wall clock (NTP step, VM resume): monotonic time is unaffected
+
     class _T:
         monotonic = staticmethod(lambda: loop._vt)
-        time = staticmethod(lambda: 1_700_000_000.0 + loop._vt)
+        time = staticmethod(lambda: 1_700_000_000.0 + loop._vt + loop.wall_offset)
         perf_counter = staticmethod(lambda: loop._vt)
         sleep = staticmethod(_time.sleep)
 
